@@ -16,11 +16,12 @@ import (
 //verif:harness VerifC11_Cycles confirmbounds quick.maxpaths=20000 thorough.maxpaths=100000 timeout=2400 steps=60000000 depth=3000
 //verif:harness VerifC11_TemplateBytes quick.maxpaths=100000 thorough.maxpaths=600000 timeout=3000 unwind=64 steps=10000000
 //verif:harness VerifC11_CallFunc quick.maxpaths=60000 thorough.maxpaths=300000 timeout=2400
+//verif:harness VerifC11_Features confirmbounds quick.maxpaths=20000 thorough.maxpaths=100000 timeout=2400 steps=20000000
 
 // VerifC11_Kernels: the string kernels behind paths, expressions and loops
 // on arbitrary short byte strings (index and slice bounds for every input).
 func VerifC11_Kernels() {
-	n := zzBound("N", 3, 5)
+	n := zzBound("N", 3, 4)
 	k := zzChoice("kernel", 8)
 	s := zzStringIn("s", n, "a.[]'\" (),|{}=!-:1")
 	switch k {
@@ -50,7 +51,7 @@ func VerifC11_Kernels() {
 // serialisation without a panic (the HTML parser is bypassed by building the
 // DOM directly, as for C01).
 func VerifC11_TemplateBytes() {
-	n := zzBound("N", 3, 5)
+	n := zzBound("N", 3, 4)
 	pos := zzChoice("pos", 6)
 	s := zzStringIn("s", n, "{}a.[]'|( )!=-")
 	data := map[string]any{"a": map[string]any{"a": []any{1, "x"}}, "xs": []string{"p"}}
@@ -268,5 +269,61 @@ func VerifC11_CallFunc() {
 	if err != nil {
 		zzNote("err", err.Error())
 		zzAssert(strings.Contains(err.Error(), fn), "C11.callfunc.error-names-function")
+	}
+}
+
+// ---- feature programs --------------------------------------------------------------
+
+type zzC11Base struct{ ID int }
+
+// a struct whose embedded pointer may be nil: ID is promoted through it
+type zzC11User struct {
+	*zzC11Base
+	Name string
+}
+
+type zzC11Named string
+
+var zzC11Programs = []string{
+	/* 0 */ `<div><template include="once.vuego"></template><template include="once.vuego"></template></div>`, // v-once only inside a component
+	/* 1 */ `<template include="two.vuego"><template v-html="h"></template></template>`, // <template v-html> as slot content used twice
+	/* 2 */ `<p>{{ u.ID }}|{{ u.Name }}|{{ pu.ID }}|{{ pu.Name }}</p>`, // promoted field through a nil embedded pointer
+	/* 3 */ `<p v-if="u.ID">a</p><p v-else :title="pu.ID">b</p>`,
+	/* 4 */ `<ul><li v-for="(i, x) in np">{{ i }}{{ x }}</li><li v-else>none</li></ul>`, // nil typed pointer / nil slice as a collection
+	/* 5 */ `<template include="two.vuego"><b v-once>{{ nm }}</b><template v-for="x in xs"><i v-once>{{ x }}</i></template></template>`,
+	/* 6 */ `<p :class="{a: nm, b: u.ID}" :style="{width: nm}">{{ nm | upper }}</p>`,
+	/* 7 */ `<template include="once.vuego"><template #x="p">{{ p.q.r }}</template></template>`,
+	/* 8 */ `<p v-text="pu.Name"></p><p v-html="u.Name"></p><template v-html="nm"></template>`,
+	/* 9 */ `<div v-for="x in xs" v-once><template include="once.vuego"></template></div>`,
+}
+
+// VerifC11_Features: small programs that combine the engine's features with
+// unusual but legal data (nil embedded pointers, named types, nil
+// collections) return - with a document or an error - through every entry
+// point; a panic or a render that does not end is the violation.
+func VerifC11_Features() {
+	k := zzChoice("program", len(zzC11Programs))
+	fsys := newZZFS(map[string]string{
+		"once.vuego": `<section><em v-once>E</em><slot name="x" :q="nm">fb</slot></section>`,
+		"two.vuego":  `<div><slot></slot> <slot></slot></div>`,
+	})
+	var np *[]int
+	data := map[string]any{
+		"u":  zzC11User{Name: "n"},
+		"pu": &zzC11User{zzC11Base: &zzC11Base{ID: 7}, Name: "p"},
+		"np": np,
+		"nm": zzC11Named("named"),
+		"xs": []zzC11Named{"x1", "x2"},
+		"h":  "<b>hi</b>",
+	}
+	out, err := zzRenderVia(zzEntry(), fsys, nil, zzC11Programs[k], data)
+	zzNote("template", zzC11Programs[k])
+	zzNote("out", out)
+	if err != nil {
+		zzNote("err", err.Error()[:zzMin(len(err.Error()), 160)])
+	}
+	// promoted fields resolve like ordinary Go field access, a nil embedded pointer is absence
+	if k == 2 && err == nil {
+		zzAssert(strings.Contains(out, "|n|7|p"), "C11.features.promoted-fields")
 	}
 }
